@@ -124,7 +124,7 @@ func (w *syncWorld) runSync(u *url.URL, handlerPath string) (o syncObs) {
 			o.panicked = fmt.Sprint(r)
 		}
 	}()
-	pub, err := ipnisync.NewPublisher(w.pubLsys, w.key, ipnisync.WithHTTPListenAddrs(u.Host), ipnisync.WithHandlerPath(strings.TrimLeft(handlerPath, "/")), ipnisync.WithStartServer(false))
+	pub, err := ipnisync.NewPublisher(w.pubLsys, w.key, ipnisync.WithHTTPListenAddrs(u.Host), ipnisync.WithHandlerPath(strings.TrimLeft(path.Clean("/"+handlerPath), "/")), ipnisync.WithStartServer(false))
 	if err != nil {
 		panic("harness: NewPublisher: " + err.Error())
 	}
